@@ -33,8 +33,8 @@ func init() {
 		Strata: []fw.Stratum{
 			{Name: "all-strings-len<=2", N: fw.Const(258, 258), Run: c09Short, Exhaustive: true},
 			{Name: "all-strings-len=3", N: fw.Const(0, 65536), Run: c09Three, Exhaustive: true},
-			{Name: "hostile-sequences", N: fw.Const(90000, 9000000), Run: c09Seq},
-			{Name: "race-tripwire", N: fw.Const(1500, 150000), Run: c09Race, Race: true},
+			{Name: "hostile-sequences", N: fw.Const(400000, 10000000), Run: c09Seq},
+			{Name: "race-tripwire", N: fw.Const(4000, 200000), Run: c09Race, Race: true},
 		},
 	})
 }
